@@ -27,6 +27,31 @@ def det_probe(case, seed):
     return keys
 
 
+def xsd(uri, body, imports=""):
+    return (f'<xs:schema xmlns:xs="http://www.w3.org/2001/XMLSchema" xmlns:tns="{uri}" targetNamespace="{uri}" elementFormDefault="qualified">\n'
+            f'{imports}{body}</xs:schema>\n')
+
+
+def name_cases(root):
+    """sibling files whose *names* are nearly equal (case, extension case, white space, Unicode normal forms):
+    which file an import denotes, and so the output, must not depend on the order of registration"""
+    t = lambda n, m: f'  <xs:complexType name="{n}"><xs:sequence><xs:element name="{m}" type="xs:string"/></xs:sequence></xs:complexType>\n'
+    fam = []
+    for k, (wanted, others) in enumerate([
+            ("common.xsd", ["Common.xsd", "COMMON.XSD"]), ("Types.xsd", ["types.xsd"]), ("a b.xsd", ["a  b.xsd", "ab.xsd"]),
+            ("caf\u00e9.xsd", ["cafe\u0301.xsd"]), ("x.xsd", ["x.XSD", "X.xsd"])]):
+        files = {"main.xsd": xsd("urn:names:main", t("Main", "m"), f'  <xs:import namespace="urn:names:wanted" schemaLocation="{wanted}"/>\n'),
+                 wanted: xsd("urn:names:wanted", t("Wanted", "w"))}
+        for j, o in enumerate(others):
+            files[o] = xsd(f"urn:names:legacy{j}", t(f"Legacy{j}", "l"))
+        d = os.path.join(root, f"names{k}")
+        os.makedirs(os.path.join(d, "in"))
+        for n, text in files.items():
+            open(os.path.join(d, "in", n), "w", encoding="utf-8").write(text)
+        fam.append({"dir": d, "in": os.path.join(d, "in"), "start": "main.xsd", "meta": {"features": "nearly-equal-file-names " + wanted}, "ref": None})
+    return fam
+
+
 def run(tier, seed):
     c = Check("C12", tier, seed)
     ok, err = c.build_harness()
@@ -40,7 +65,7 @@ def run(tier, seed):
         c.leanchecker(["ZeepVerif.Props.C12"])
     model_ok, model_err = c.lake_build(["zvdrv"])
     root = g.scratch(f"C12-{tier}-{seed}")
-    cases = st.repo_corpus_cases(root, large=(tier == "thorough"))
+    cases = st.repo_corpus_cases(root, large=(tier == "thorough")) + name_cases(root)
     for profile, nq, nt in (("genwsdl", 30, 500), ("genwsdlmulti", 20, 300), ("gencyc", 25, 400), ("genwsdlcollide", 10, 100)):
         n = nq if tier == "quick" else nt
         if not proved:
@@ -74,7 +99,7 @@ def run(tier, seed):
         "evaluations": sum(len(k) for k in probes),
         "distinct_nontrivial": sum(1 for cs in cases if cs["impl"].startswith("ok")),
         "rule": "per input: 3 fresh processes x (5 registration orders + 1 other thread + 3 repeated calls on one FilesToRead), all 27 outputs compared byte for byte (by hash); "
-                "non-trivial = an input the generator accepts; inputs: repository corpus, generated WSDLs with 1-4 operations and 1-4 parts per message (also messages with parts bound neither as body nor as header), cyclic import graphs",
+                "non-trivial = an input the generator accepts; inputs: repository corpus, generated WSDLs with 1-4 operations and 1-4 parts per message (also messages with parts bound neither as body nor as header), cyclic import graphs, and sets of sibling files whose names differ only in case / extension case / white space / Unicode normal form",
         "samples": [{"input": cs["meta"].get("source") or cs["meta"].get("features"), "probes": p[:3]} for cs, p in list(zip(cases, probes))[:2]],
         "probe_kinds": dict(tags),
         "inputs": len(cases),
